@@ -470,6 +470,9 @@ _amend("C15", "rule", "Non-trivial", "A unary method whose handler holds the cal
 _amend("C16", "rule", "Non-trivial", "The nested additional binding sits at any position among 2-4 siblings (valid siblings may follow it). Non-trivial")
 _amend("C18", "rule", "Non-trivial", "One handler in six uses the header API again after its headers went out (SetHeader after SendHeader / after its first reply) and returns the refusal: the same with every option subset. Non-trivial")
 
+# round 15 (ten properties)
+_amend("C04", "rule", "Non-trivial", "A quarter of the muxes register a codec of their own under a non-default type (application/x-protobuf), which Accept may name. Non-trivial")
+
 # native coverage-guided fuzzing of the same generators (thorough tier only)
 for _k, _t in (("C01", "FuzzRoute"), ("C03", "FuzzTranscode"), ("C16", "FuzzRegister"), ("C17", "FuzzCodec")):
     PROPS[_k]["fuzz"] = {"target": _t, "seconds": 120}
